@@ -1,0 +1,22 @@
+// SPDX-FileCopyrightText: 2026 The Pion community <https://pion.ly>
+// SPDX-License-Identifier: MIT
+
+//go:build verif && !js
+
+package webrtc
+
+// Verification hooks for property C08 (answer directions are legal responses to the offered
+// directions): read-only access to the negotiated directions of a transceiver, which have no public
+// getter. Add-only; compiled only with the build tag verif.
+
+// VerifCurrentDirection returns the transceiver's currentDirection (RTPTransceiverDirectionUnknown
+// until a negotiation set it).
+func VerifCurrentDirection(t *RTPTransceiver) RTPTransceiverDirection {
+	return t.getCurrentDirection()
+}
+
+// VerifCurrentRemoteDirection returns the direction of the last remote offer's m-section applied to
+// the transceiver (RTPTransceiverDirectionUnknown when there was none).
+func VerifCurrentRemoteDirection(t *RTPTransceiver) RTPTransceiverDirection {
+	return t.getCurrentRemoteDirection()
+}
